@@ -222,7 +222,9 @@ class _Time:
         h = self._s.on_time
         if h is not None:
             h(self._s.current, self._s.now)
-        return self._s.now
+        t = self._s.now
+        self._s.now += getattr(self._s, 'time_drift', 0.0)     # time passes between two readings
+        return t
 
     def sleep(self, secs):
         self._s.sleep(secs)
@@ -249,7 +251,9 @@ class _Datetime:
         h = self._s.on_time
         if h is not None:
             h(self._s.current, self._s.now)
-        return _Now(self._s.now)
+        t = self._s.now
+        self._s.now += getattr(self._s, 'time_drift', 0.0)     # time passes between two readings
+        return _Now(t)
 
 
 # ------------------------------------------------------------------------------ policies
